@@ -275,7 +275,7 @@ def c03_replay(path):
 
 # --------------------------------------------------------------------------- C04
 
-BGROUPS = ["int", "bytes", "string", "poly", "data", "bits", "crypto"]
+BGROUPS = ["int", "bytes", "string", "poly", "data", "bits", "crypto", "chains"]
 
 
 def mc_builtin(group, sems, slack, workers=6, timeout=1500):
@@ -318,7 +318,7 @@ def replay_builtins(tier, rep, check_cost, check_outcome=True):
         obs1, obs2 = obs[:len(cases)], obs[len(cases):]
         for c, o, o2 in zip(cases, obs1, obs2):
             tot["cases"] += 1
-            f = builtin_of(c["term"])
+            f = builtin_of(c["term"]) or "?"
             tot["per_builtin"][f] = tot["per_builtin"].get(f, 0) + 1
             if cj(o["out"]) != cj(o2["out"]):
                 rep.violation("nondet:" + cj(c["term"]) + c["sem"], {"term": c["term"], "sem": c["sem"], "first": o, "second": o2},
@@ -536,6 +536,32 @@ def extra_malformed():
         out += [v, {"k": "lam", "b": v}, {"k": "app", "f": {"k": "lam", "b": {"k": "delay", "b": v}}, "a": {"k": "con", "c": {"t": "unit"}}},
                 {"k": "app", "f": {"k": "lam", "b": {"k": "lam", "b": {"k": "constr", "tag": 0, "fs": [v]}}}, "a": {"k": "con", "c": {"t": "unit"}}},
                 {"k": "force", "b": {"k": "delay", "b": {"k": "case", "s": {"k": "constr", "tag": 0, "fs": []}, "bs": [v]}}}]
+    # integers at the 64-bit boundaries (TLC cannot carry them): every builtin that converts an integer argument
+    I64 = [(1 << 63) - 1, 1 << 63, -(1 << 63), -(1 << 63) - 1, (1 << 64) - 1, 1 << 64, -(1 << 64), 1 << 127, -(1 << 127) - 1, 1 << 128]
+
+    def big(n):
+        return {"k": "con", "c": {"t": "int", "v": 0, "big": str(n)}}
+
+    def bi2(name, forces, *args):
+        t = {"k": "bi", "f": name}
+        for _ in range(forces):
+            t = {"k": "force", "b": t}
+        for a in args:
+            t = {"k": "app", "f": t, "a": a}
+        return t
+    bs = {"k": "con", "c": {"t": "bs", "v": [1, 2, 3]}}
+    li = {"k": "con", "c": {"t": "list", "et": {"t": "int"}, "v": [{"t": "int", "v": 1}, {"t": "int", "v": 2}]}}
+    ld = {"k": "con", "c": {"t": "list", "et": {"t": "data"}, "v": []}}
+    tt = {"k": "con", "c": {"t": "bool", "v": True}}
+    one = {"k": "con", "c": {"t": "int", "v": 1}}
+    for n in I64:
+        b = big(n)
+        out += [bi2("dropList", 1, b, li), bi2("shiftByteString", 0, bs, b), bi2("rotateByteString", 0, bs, b), bi2("replicateByte", 0, b, one),
+                bi2("replicateByte", 0, one, b), bi2("integerToByteString", 0, tt, b, one), bi2("integerToByteString", 0, tt, one, b),
+                bi2("indexByteString", 0, bs, b), bi2("sliceByteString", 0, b, one, bs), bi2("sliceByteString", 0, one, b, bs), bi2("consByteString", 0, b, bs),
+                bi2("constrData", 0, b, ld), bi2("readBit", 0, bs, b), bi2("writeBits", 0, bs, {"k": "con", "c": {"t": "list", "et": {"t": "int"}, "v": [{"t": "int", "v": 0, "big": str(n)}]}}, tt),
+                bi2("expModInteger", 0, b, one, b), bi2("expModInteger", 0, one, b, one), bi2("divideInteger", 0, b, {"k": "con", "c": {"t": "int", "v": -1}}),
+                bi2("iData", 0, b), bi2("serialiseData", 0, bi2("iData", 0, b)), bi2("multiplyInteger", 0, b, b)]
     # huge constructor tags and case indices
     out.append({"k": "constr", "tag": (1 << 64) - 1, "fs": []})
     out.append({"k": "case", "s": {"k": "constr", "tag": (1 << 64) - 1, "fs": []}, "bs": [{"k": "con", "c": {"t": "unit"}}]})
@@ -600,6 +626,9 @@ def c10(tier):
     rng = random.Random(vlib.seed() + 10)
     terms = termgen.random_terms(rng.randint(0, 1 << 30), 2000 if tier == "quick" else 30000, fuel=(6, 60), wrong=0.15)
     run([{"term": t, "sem": rng.choice(SEMS)} for t in terms], "random ill-typed terms (seed %d)" % vlib.seed(), [budgets[1], budgets[4]])
+    # 5. compilation: constant expressions the optimiser folds
+    compiled, nexpr = c10_compile(rep, tier)
+    ev += compiled
     if ev < 10000:
         raise vlib.ToolError("C10 vacuity: only %d evaluations" % ev)
     cov = {"states": states, "transitions": trans, "traces_validated_against_impl": ev, "samples": samples,
@@ -608,7 +637,7 @@ def c10(tier):
                    "forces-1/forces/forces+1, absurd indices and tags, random ill-typed programs; each under several budgets "
                    "(max, 0, negative, tiny with slippage 1) and through the public Program::eval_version* + EvalResult "
                    "accessors; build has overflow checks on; a panic is an observed outcome that no spec action produces",
-           "exhaustive": True, "compile_side": "covered by the C01/C02 checks once built (constant folding families)"}
+           "exhaustive": True, "constant_expressions_compiled": compiled, "constant_expression_family": nexpr}
     rc = rep.finish()
     vlib.write_evidence("C10", tier, "model_checking", cov,
                         ["harness is built with overflow-checks and debug-assertions on, so arithmetic overflow surfaces as a panic",
@@ -628,3 +657,77 @@ def c10_replay(path):
         print("VIOLATION property=C10 replay=%s" % path)
         return 1
     return 0
+
+
+# --------------------------------------------------------------------------- C10 (compilation part)
+
+def fold_family():
+    """well-typed Aiken modules whose constant expressions the optimiser will try to fold: every foldable builtin on
+    boundary constants (the compiler must produce a program or a diagnostic, never panic)"""
+    ints = ["0", "1", "-1", "255", "256", "8192", "8193", "10000", "-5", "18446744073709551616", "-9223372036854775808"]
+    small = ["0", "1", "-1", "2", "256"]
+    bas = ['#""', '#"00"', '#"ff01"', '#"0102030405060708ff"']
+    bools = ["True", "False"]
+    exprs = []
+    for a in ints:
+        for b in small:
+            exprs += ["builtin.divide_integer(%s, %s)" % (a, b), "builtin.mod_integer(%s, %s)" % (a, b), "builtin.quotient_integer(%s, %s)" % (a, b),
+                      "builtin.remainder_integer(%s, %s)" % (a, b), "%s / %s" % (a, b), "%s %% %s" % (a, b), "builtin.replicate_byte(%s, %s)" % (a, b),
+                      "builtin.replicate_byte(%s, %s)" % (b, a)]
+        for ba in bas:
+            exprs += ["builtin.cons_bytearray(%s, %s)" % (a, ba), "builtin.index_bytearray(%s, %s)" % (ba, a), "builtin.slice_bytearray(%s, 1, %s)" % (a, ba),
+                      "builtin.slice_bytearray(0, %s, %s)" % (a, ba), "builtin.shift_bytearray(%s, %s)" % (ba, a), "builtin.rotate_bytearray(%s, %s)" % (ba, a),
+                      "builtin.read_bit(%s, %s)" % (ba, a), "builtin.write_bits(%s, [%s], True)" % (ba, a)]
+        for e in bools:
+            for w in small + ["8192", "8193"]:
+                exprs += ["builtin.integer_to_bytearray(%s, %s, %s)" % (e, w, a), "builtin.integer_to_bytearray(%s, %s, %s)" % (e, a, w)]
+        exprs += ["builtin.constr_data(%s, [])" % a, "builtin.un_i_data(builtin.i_data(%s))" % a, "builtin.exp_mod_integer(%s, 3, 7)" % a,
+                  "builtin.exp_mod_integer(2, %s, 7)" % a, "builtin.exp_mod_integer(2, 3, %s)" % a, "builtin.drop_list(%s, [1, 2])" % a]
+    for ba in bas:
+        exprs += ["builtin.decode_utf8(%s)" % ba, "builtin.bytearray_to_integer(True, %s)" % ba, "builtin.count_set_bits(%s)" % ba,
+                  "builtin.find_first_set_bit(%s)" % ba, "builtin.complement_bytearray(%s)" % ba, "builtin.un_b_data(builtin.b_data(%s))" % ba,
+                  "builtin.sha2_256(%s)" % ba, "builtin.blake2b_224(%s)" % ba, "builtin.bls12_381_g1_uncompress(%s)" % ba,
+                  "builtin.verify_ed25519_signature(%s, %s, %s)" % (ba, ba, ba), "builtin.length_of_bytearray(%s)" % ba]
+        for bb in bas:
+            for e in bools:
+                exprs += ["builtin.and_bytearray(%s, %s, %s)" % (e, ba, bb), "builtin.xor_bytearray(%s, %s, %s)" % (e, ba, bb)]
+    exprs += ["builtin.head_list([])", "builtin.tail_list([])", "builtin.un_i_data(builtin.b_data(#\"00\"))", "builtin.un_constr_data(builtin.i_data(1))",
+              "builtin.un_list_data(builtin.i_data(1))", "builtin.un_map_data(builtin.list_data([]))"]
+    return exprs
+
+
+def c10_compile(rep, tier):
+    """returns (#modules compiled, #expressions)"""
+    exprs = fold_family()
+    mods = []
+    per = 12
+    for i in range(0, len(exprs), per):
+        chunk = exprs[i:i + per]
+        src = "use aiken/builtin\n\n" + "\n".join("pub fn f%d() {\n  %s\n}\n" % (j, e) for j, e in enumerate(chunk))
+        mods.append((src, chunk))
+    real = [{"id": i, "src": src, "tracings": [["all", "silent"], ["all", "verbose"]], "fns": [{"name": "f%d" % j, "args": [[]]} for j in range(len(chunk))]}
+            for i, (src, chunk) in enumerate(mods)]
+    obs = vlib.run_harness("aiken_run", stdin_lines=real, timeout=3600)
+    compiled = rejected = 0
+    for (src, chunk), o in zip(mods, obs):
+        for run in o["runs"]:
+            chk = run["check"]
+            if chk != "ok":
+                if isinstance(chk, dict) and "panic" in chk:
+                    rep.violation("check-panic:" + src, {"src": src, "panic": chk["panic"]}, "the type checker panicked: %s" % chk["panic"][:200])
+                else:
+                    rejected += 1      # a diagnostic is an acceptable answer; find which expression if needed
+                continue
+            for e, f in zip(chunk, run["fns"]):
+                compiled += 1
+                if f["compile"] != "ok" and "panic" in f["compile"]:
+                    loc = f["compile"]["panic"].split(" @ ")[-1]
+                    rep.violation("compile-panic@" + loc + "|" + e, {"expression": e, "tracing": run["tracing"], "panic": f["compile"]["panic"]},
+                                  "compiling the well-typed constant expression `%s` panicked: %s" % (e, f["compile"]["panic"][:200]))
+                elif f["compile"] == "ok":
+                    for x in f["results"]:
+                        if x["post"]["o"] == "panic":
+                            rep.violation("eval-panic|" + e, {"expression": e, "observed": x["post"]}, "evaluating compiled `%s` panicked" % e)
+    if rejected > 0.5 * len(mods):
+        raise vlib.ToolError("C10 fold family: %d of %d modules rejected by the checker (the family no longer type-checks)" % (rejected, len(mods)))
+    return compiled, len(exprs)
